@@ -470,8 +470,9 @@ def _handle_pth_file(path: Path) -> list[_SP]:
         # It turns out PyTorch recommends its users to use `.pth` as the extension
         # when saving models on the disk. These model files are not encoded in UTF8.
         # If UTF8 decoding fails, we skip the .pth file.
+        # Like the `site` module, we also skip what cannot be read (a directory named `x.pth` for example).
         text = path.read_text(encoding="utf8")
-    except UnicodeDecodeError:
+    except (UnicodeDecodeError, OSError):
         return directories
     for line in text.strip().replace(";", "\n").splitlines(keepends=False):
         line = line.strip()  # noqa: PLW2901
